@@ -554,17 +554,22 @@ func c08Observe(sc *c08Scenario, probe *c08Probe, attempt int) ([]verifsupport.E
 	returned := false
 	var retAt time.Duration
 	var retErr error
-	wall0 := time.Now()
-	for _, n := range raw {
-		n.t0 = wall0
-	}
+	// The origin of all instants is taken on the calling goroutine immediately before the call, so
+	// that the time this goroutine waits to be scheduled is not attributed to the submitter.
+	startCh := make(chan time.Time, 1)
 	go func() {
+		w0 := time.Now()
+		for _, n := range raw {
+			n.t0 = w0
+		}
+		startCh <- w0
 		e := payload.call(svc)
-		d := time.Since(wall0)
+		d := time.Since(w0)
 		retMu.Lock()
 		returned, retAt, retErr = true, d, e
 		retMu.Unlock()
 	}()
+	wall0 := <-startCh
 
 	for {
 		time.Sleep(2 * time.Millisecond)
@@ -761,9 +766,7 @@ func TestVerifC08(t *testing.T) {
 			defer wg.Done()
 			for sc := range work {
 				var lines []verifsupport.Ev
-				if sc.Sub == "scatter" {
-					lines = c08Scatter(sc)
-				} else {
+				{
 					for attempt := 0; ; attempt++ {
 						l, noisy, err := c08Observe(sc, probe, attempt)
 						if err != nil {
@@ -790,7 +793,7 @@ func TestVerifC08(t *testing.T) {
 							failMu.Unlock()
 							break
 						}
-						time.Sleep(50 * time.Millisecond)
+						time.Sleep(time.Duration(100+400*attempt) * time.Millisecond)
 					}
 				}
 				emitMu.Lock()
@@ -801,11 +804,21 @@ func TestVerifC08(t *testing.T) {
 			}
 		}()
 	}
+	// Timed scenarios first; the CPU-bound Scatter runs only start when no instant is being measured.
 	for i := range scenarios {
-		work <- &scenarios[i]
+		if scenarios[i].Sub != "scatter" {
+			work <- &scenarios[i]
+		}
 	}
 	close(work)
 	wg.Wait()
+	for i := range scenarios {
+		if scenarios[i].Sub == "scatter" {
+			for _, l := range c08Scatter(&scenarios[i]) {
+				tr.Emit(l)
+			}
+		}
+	}
 	if failure != nil {
 		t.Fatal(failure)
 	}
